@@ -4,7 +4,7 @@
 d="$1"; t="${2:-$d/target}"
 cd "$d" || exit 2
 rm -f "$t/nextest/pb/junit.xml"
-CARGO_NET_OFFLINE=true CARGO_TARGET_DIR="$t" cargo nextest run --workspace --no-fail-fast --tool-config-file pb:/w/lib/nextest.toml --profile pb --test-threads 8 --offline >/tmp/baseline.$$.log 2>&1
+INSTA_UPDATE=no CARGO_NET_OFFLINE=true CARGO_TARGET_DIR="$t" cargo nextest run --workspace --no-fail-fast --tool-config-file pb:/w/lib/nextest.toml --profile pb --test-threads 8 --offline >/tmp/baseline.$$.log 2>&1
 python3 - "$t/nextest/pb/junit.xml" <<'PY'
 import json,sys,xml.etree.ElementTree as ET
 base=set(json.load(open('/root/.vp/BASELINE.json'))['stable_pass'])
